@@ -19,13 +19,45 @@ structure WFRegions (c : Cart) : Prop where
   music : c.music.length = 0x100
   version : c.version < 256
 
-/-- the code is stored compressed (p8png.py:151) -/
-def storedCompressed (code : Bytes) : Prop := (compress code).length < code.length
+/-- the code is stored compressed: only when that is smaller counting the 8-byte header (p8png.py:151) -/
+def storedCompressed (code : Bytes) : Prop := (compress code).length + 8 < code.length
 
 /-- the cart's code fits the 0x3d00-byte code area in the form picotool chooses -/
 def codeFits (code : Bytes) : Prop :=
-  if (compress code).length < code.length then code.length < 65536 ∧ 8 + (compress code).length ≤ codeAreaLen
+  if (compress code).length + 8 < code.length then code.length < 65536 ∧ 8 + (compress code).length ≤ codeAreaLen
   else code.length ≤ codeAreaLen
+
+/-- **C04.raw_fit_never_refused**: code that fits the code area as plain text always fits in the form picotool
+chooses — choosing the compressed form never turns a cart that fits into one that is refused (defect 31: with the
+choice `compressed < raw` that ignored the header, text of up to 0x3d00 bytes whose stream was 1–7 bytes shorter was
+refused). -/
+theorem raw_fit_never_refused (code : Bytes) (h : code.length ≤ codeAreaLen) : codeFits code := by
+  unfold codeFits
+  have : codeAreaLen = 0x3d00 := rfl
+  split <;> omega
+
+/-- **C04.codeFits_iff**: "fits in the form picotool chooses" is the same as "fits in *some* form": as plain text, or
+compressed behind the 8-byte header (whose length field has 16 bits). The right-hand side does not mention the choice. -/
+theorem codeFits_iff (code : Bytes) :
+    codeFits code ↔ code.length ≤ codeAreaLen ∨ (code.length < 65536 ∧ 8 + (compress code).length ≤ codeAreaLen) := by
+  unfold codeFits
+  have : codeAreaLen = 0x3d00 := rfl
+  split <;> omega
+
+/-- so such a cart is written (with `refuses`: the writer fails exactly when `codeFits` does not hold). -/
+theorem raw_fit_written (lbl : List (List UInt8)) (c : Cart) (h : c.code.length ≤ codeAreaLen) (hv : c.version < 256) :
+    ∃ rows, toPixels lbl c = .ok rows := by
+  have hf := raw_fit_never_refused c.code h
+  unfold codeFits at hf
+  have hcb : ∃ cb, getBytesFromCode c.code = .ok cb := by
+    by_cases hc : (compress c.code).length + 8 < c.code.length
+    · rw [if_pos hc] at hf
+      exact ⟨_, getBytes_compressed c.code hc hf.1 hf.2⟩
+    · rw [if_neg hc] at hf
+      exact ⟨_, getBytes_raw c.code hc hf⟩
+  obtain ⟨cb, hcb⟩ := hcb
+  exact ⟨encRows lbl (picodata c cb), by
+    simp [toPixels, hcb, bind, Except.bind, Nat.not_lt.mpr (Nat.le_of_lt_succ hv), pure, Except.pure]⟩
 
 /-- **C04.refuses**: a cart whose code does not fit is refused with an error, never written. -/
 theorem refuses (lbl : List (List UInt8)) (c : Cart) (h : ¬ codeFits c.code) :
@@ -39,7 +71,7 @@ theorem code_area_compressed (code : Bytes) (v : Nat) (hv : v ≠ 0) (hc : store
     (hfit : codeFits code) (hg : C05.Guard code) :
     ∃ area sz, getBytesFromCode code = .ok area ∧ area.length = codeAreaLen ∧
       getCodeFromBytes area v = .ok (code.length, replaceCR code, some sz) := by
-  have hc' : (compress code).length < code.length := hc
+  have hc' : (compress code).length + 8 < code.length := hc
   have ⟨h1, h2⟩ : code.length < 65536 ∧ 8 + (compress code).length ≤ codeAreaLen := by
     simpa [codeFits, hc'] using hfit
   obtain ⟨sz, hsz⟩ := getCode_compressed code
@@ -55,7 +87,7 @@ theorem code_area_raw (code : Bytes) (v : Nat) (hc : ¬ storedCompressed code) (
     (hnul : (0 : UInt8) ∉ code) (hnc : code ≠ [0x3a, 0x63, 0x3a]) :
     ∃ area, getBytesFromCode code = .ok area ∧ area.length = codeAreaLen ∧
       getCodeFromBytes area v = .ok (code.length, replaceCR (code ++ [10]), none) := by
-  have hc' : ¬ (compress code).length < code.length := hc
+  have hc' : ¬ (compress code).length + 8 < code.length := hc
   have h1 : code.length ≤ codeAreaLen := by simpa [codeFits, hc'] using hfit
   refine ⟨_, getBytes_raw code hc' h1, ?_, getCode_raw code _ v (by omega) hnul hnc⟩
   simp only [List.length_append, List.length_replicate]
@@ -83,7 +115,7 @@ theorem label_bits (lbl : List (List UInt8)) (w : Nat) (pico : Bytes) (h : WFLab
 
 /-- the cart as the reader returns it -/
 def normPng (c : Cart) : Cart :=
-  { c with code := if (compress c.code).length < c.code.length then replaceCR c.code else replaceCR (c.code ++ [10]),
+  { c with code := if (compress c.code).length + 8 < c.code.length then replaceCR c.code else replaceCR (c.code ++ [10]),
            label := none }
 
 /-- **C04.fits_roundtrip**: writing any cart whose code fits and reading the pixels back yields identical
@@ -98,11 +130,11 @@ theorem fits_roundtrip (lbl : List (List UInt8)) (w : Nat) (c : Cart) (hl : WFLa
   by_cases hc : storedCompressed c.code
   · obtain ⟨hv, hg⟩ := hcomp hc
     obtain ⟨area, sz, hb, ha, hcode⟩ := code_area_compressed c.code c.version hv hc hfit hg
-    have hc' : (compress c.code).length < c.code.length := hc
+    have hc' : (compress c.code).length + 8 < c.code.length := hc
     simpa [normPng, hc'] using hfrom area hb ha _ _ _ hcode
   · obtain ⟨hnul, hnc⟩ := hraw hc
     obtain ⟨area, hb, ha, hcode⟩ := code_area_raw c.code c.version hc hfit hnul hnc
-    have hc' : ¬ (compress c.code).length < c.code.length := hc
+    have hc' : ¬ (compress c.code).length + 8 < c.code.length := hc
     simpa [normPng, hc'] using hfrom area hb ha _ _ _ hcode
 
 end Pico.C04
